@@ -18,7 +18,7 @@ import (
 
 func init() {
 	Register(&Scenario{
-		Prop: "C11", Run: scenarioC11, QuickRuns: 12000, ThoroughRuns: 300000, Level: "exploration",
+		Prop: "C11", Run: scenarioC11, QuickRuns: 12000, ThoroughRuns: 1500000, Level: "exploration",
 		Rule:       "one run = a seeded evolving world (both executors); (a) history-dependent half: after construction and after every epoch Organism.Phenotype() of every organism is compared with the reference expression of that organism's *current* genome (a phenotype cached before the last mutation shows here); (b) genomes taken from the run, the shipped modular genome and generated modular genomes are expressed and compared node by node, link by link (pointer-consistent incoming/outgoing lists), control node by control node, and through the whole gonum graph view over all ordered pairs of present ids plus absent ones. A case is one compared network; non-trivial when the genome has a disabled gene, a recurrent gene or a module; distinct by genome shape hash",
 		RealParts:  []string{"Genome.Genesis, Organism.Phenotype / phenotype caching, Network graph adapters (Node, Nodes, From, To, Edge, WeightedEdge, Weight, HasEdgeFromTo, HasEdgeBetween), NodeCount / LinkCount / Complexity", "the epochs and mutators that create and modify the organisms"},
 		StubParts:  []string{"fitness assignment", "goroutine choice in parallel worlds"},
